@@ -2,7 +2,7 @@ CONSTANTS
   Families = {"strings"}
   Steps = {0}
   AllTails = FALSE
-  MaxS = 6
+  MaxS = 5
   Alphabet <- AlphaLong
 INIT Init
 NEXT Next
